@@ -28,14 +28,34 @@ def starts_two_nots(t):
     return t[0] == 'not' and t[1][0] == 'not'
 
 
+_SEARCH = []
+
+
 def semantic_counterexample(f, r, rng):
-    """search small structures for a state where f and r (state formulas) differ, with the reference"""
-    for kd in list(all_kripkes(1)) + rng.sample(list(all_kripkes(2)), 60):
-        try:
-            if ref_check(kd, f) != ref_check(kd, r):
-                return kd_json(kd)
-        except Exception:
+    """search structures for a state where f and r differ under the reference semantics: every 1-state structure, a sample of the
+    2-state ones, and random structures with 3-5 states (an until over alternating labels needs >= 3 states).  Path formulas are
+    compared under both quantifiers (A f vs A r, E f vs E r)."""
+    if not _SEARCH:
+        r0 = random.Random(5)
+        labs = [[], ['p'], ['q'], ['p', 'q']]
+        lassos = [{'S': [0, 1, 2], 'S0': [], 'R': [(0, 1), (1, 2), (2, 2)], 'L': {0: a, 1: b, 2: c}} for a in labs for b in labs for c in labs]
+        r0.shuffle(lassos)
+        _SEARCH.extend(lassos + list(all_kripkes(1)) + r0.sample(list(all_kripkes(2)), 60) +
+                       [rand_kripke(r0, r0.randint(3, 5), maxdeg=2) for _ in range(120)])
+    pairs = [(f, r)] if (is_ctls_state(f) and is_ctls_state(r)) else [(('A', f), ('A', r)), (('E', f), ('E', r))]
+    if fsize(f) > 14:
+        return None           # the reference evaluator is exponential in the formula: witnesses are searched for small formulas only
+    t_end = time.time() + 3.0
+    for kd in _SEARCH:
+        if time.time() > t_end:
             return None
+        for a, b in pairs:
+            try:
+                if ref_check(kd, a) != ref_check(kd, b):
+                    return {'kripke': kd_json(kd), 'original': fstr(a), 'rewritten': fstr(b),
+                            'states_original': sorted(ref_check(kd, a)), 'states_rewritten': sorted(ref_check(kd, b))}
+            except Exception:
+                return None
     return None
 
 
@@ -74,6 +94,7 @@ def run(R):
         # LNot of an LTL state formula A g would be Not(A g), which is not LTL: TypeError (model: mk)
         cmds.append(['mk', 'LTL', 'not', ['LTL', fsx(f)]] if (logic == 'LTL' and f[0] == 'A') else ['lnot', fsx(f)])
     outs = model_batch_parallel(cmds)
+    nsearch = [0.0]
     for i, (logic, f, r, ln, unchanged) in enumerate(meta):
         R.evaluations += 1
         o_r, o_ln = outs[2 * i], outs[2 * i + 1]
@@ -100,15 +121,19 @@ def run(R):
             bad.append('formula modified')
         if bad:
             cex = None
-            if 'restricted' in bad and r[0] == 'ok' and is_ctls_state(f):
+            t_s = time.time()
+            if nsearch[0] > 45.0:
+                pass          # witnesses are searched until 45 s have been spent on it; later differences are reported as they are
+            elif 'restricted' in bad and r[0] == 'ok':
                 cex = semantic_counterexample(f, r[1], rng)
-            if cex is None and 'LNot' in bad and ln[0] == 'ok':
+            if cex is None and nsearch[0] <= 45.0 and 'LNot' in bad and ln[0] == 'ok':
                 # LNot(f) must be equivalent to not f: look for a structure/state where they differ
                 g0 = f if is_ctls_state(f) else ('A', f)
                 g1 = ln[1] if is_ctls_state(f) else ('A', ('not', ln[1]))
                 g0 = ('not', g0) if is_ctls_state(f) else g0
                 # state formulas: not f vs LNot f;  path formulas: A f vs A not (LNot f)
                 cex = semantic_counterexample(g0, g1, rng)
+            nsearch[0] += time.time() - t_s
             R.violation('rewriting differs from the proved model: %s' % ','.join(bad),
                         {'logic': logic, 'formula': f, 'formula_str': fstr(f), 'impl_restricted': r, 'model_restricted': m_r,
                          'impl_LNot': ln, 'model_LNot': m_ln, 'semantic_counterexample': cex},
